@@ -4,52 +4,13 @@
    The alphabet is the single source of truth: the Python driver obtains it from TLC
    (PrintT of ToJson) and enumerates index tuples; the trace spec re-derives each model from
    its index tuple, so the enumeration is exhaustive by construction.                     *)
-EXTENDS BareCore, Json
+EXTENDS JumpAlphabet
 
 CONSTANTS N, Limit
-
-V(n) == [k |-> "var", v |-> n]
-Nm(n) == [k |-> "num", v |-> IntV(n)]
-Bin(op, l, r) == [k |-> "bin", op |-> op, l |-> l, r |-> r]
-CallE(name, args) == [k |-> "call", name |-> name, args |-> args, noargs |-> FALSE]
-ExprS(e) == [k |-> "expr", name |-> "", e |-> e]
-Assign(n, e) == [k |-> "expr", name |-> n, e |-> e]
-Jump(l) == [k |-> "jump", label |-> l, hasE |-> FALSE, e |-> V("null")]
-JumpIf(l, e) == [k |-> "jump", label |-> l, hasE |-> TRUE, e |-> e]
-LabelS(l) == [k |-> "label", v |-> l]
-Ret == [k |-> "return", hasE |-> FALSE, e |-> V("null")]
-RetE(e) == [k |-> "return", hasE |-> TRUE, e |-> e]
-Fun(name, args, body) == [k |-> "function", name |-> name, args |-> args, last |-> FALSE, body |-> body]
-
-LogA == ExprS(CallE("probe", <<Nm(1), V("a")>>))
-IncA == Assign("a", Bin("+", V("a"), Nm(1)))
-CondA == Bin("<", V("a"), Nm(3))
-CallF == Assign("b", CallE("ff", <<V("a")>>))
-
-\* one-level function bodies (from the same alphabet)
-Bodies == <<
-    <<LogA, RetE(Bin("+", V("p"), Nm(10)))>>,
-    <<JumpIf("L1", V("p")), LogA, LabelS("L1"), IncA>>,
-    <<Jump("L2"), LogA>>,                                    \* L2 is not defined in the body: jumps never reach the caller's label
-    <<LabelS("L1"), Assign("p", Bin("+", V("p"), Nm(1))), JumpIf("L1", Bin("<", V("p"), Nm(3))), RetE(V("p"))>>,
-    <<Assign("a", Nm(7)), LogA, Ret, LogA>>,
-    <<LabelS("L2"), LabelS("L2"), RetE(V("a"))>> >>
-
-Alphabet == <<
-    LogA, IncA,
-    Jump("L1"), Jump("L2"), JumpIf("L1", CondA), JumpIf("L2", CondA),
-    LabelS("L1"), LabelS("L2"),
-    Ret, RetE(V("a")), CallF >>
-    \o [i \in 1..Len(Bodies) |-> Fun("ff", <<"p">>, Bodies[i])]
-
-Tuples(n) == UNION { [1..k -> 1..Len(Alphabet)] : k \in 1..n }
-ProgOf(ix) == [j \in 1..Len(ix) |-> Alphabet[ix[j]]]
 
 VARIABLES ix, pc, st, status
 vars == <<ix, pc, st, status>>
 
-G0 == ("a" :> IntV(0)) @@ ("b" :> Null) @@ ("probe" :> HostFn("probe"))
-Names0 == [a |-> <<97>>, b |-> <<98>>]
 
 Init == /\ ix \in Tuples(N)
         /\ pc = 1
@@ -78,5 +39,4 @@ ProbeUntouched == [][st'.g["probe"] = st.g["probe"]]_vars
 \* a positive limit makes every run end (C09 "no script can run forever")
 Terminates == <>(status # "run")
 
-PrintAlphabet == PrintT(<<"ALPHABET", ToJson(Alphabet)>>)
 =============================================================================
